@@ -118,8 +118,18 @@ def cases(draw):
         }
         if op['ctl'] in ('store', 'force+store'):
             op['store'] = draw(ARG_VALUES)
+            if backend == 'memory' and draw(st.integers(0, 3)) == 0:
+                op['store'] = {'__ndarray__': draw(st.lists(st.integers(0, 9), min_size=2, max_size=4))}
         ops.append(op)
     return {'methods': methods, 'backend': backend, 'ops': ops}
+
+
+def _store_value(v):
+    """A supplied value: JSON-like, or (in-memory cache only) a numpy array - a value with element-wise ==."""
+    if isinstance(v, dict) and set(v) == {'__ndarray__'}:
+        import numpy as np
+        return np.array(v['__ndarray__'])
+    return copy.deepcopy(v)
 
 
 def _src(methods):
@@ -198,10 +208,10 @@ def eval_case(case, rec):
             elif op['ctl'] == 'only':
                 ctl['only_cache'] = True
             elif op['ctl'] == 'store':
-                ctl['store_cache_value'] = copy.deepcopy(op['store'])
+                ctl['store_cache_value'] = _store_value(op['store'])
             elif op['ctl'] == 'force+store':
                 ctl['force_cache'] = True
-                ctl['store_cache_value'] = copy.deepcopy(op['store'])
+                ctl['store_cache_value'] = _store_value(op['store'])
             mkey = (m['name'], canon({k: v for k, v in binding.items() if k not in m['ignore']}))
             spell = (len(args), tuple(kwargs), op['revkeys'])
             before = len(log)
@@ -224,16 +234,16 @@ def eval_case(case, rec):
                 # forced: the supplied value replaces whatever is stored, still without calling the method
                 if ran:
                     raise Violation('store_cache_value-executed', info)
-                if not strict_eq(got, op['store']):
+                if not strict_eq(got, _store_value(op['store'])):
                     raise Violation('forced-store_cache_value-not-returned', dict(info, got=repr(got), want=repr(op['store'])))
-                model[mkey] = op['store']
+                model[mkey] = _store_value(op['store'])
             elif op['ctl'] == 'store':
                 if ran:
                     raise Violation('store_cache_value-executed', info)
-                want = model[mkey] if present else op['store']
+                want = model[mkey] if present else _store_value(op['store'])
                 if not strict_eq(got, want):
                     raise Violation('store_cache_value-wrong-value', dict(info, got=repr(got), want=repr(want)))
-                model.setdefault(mkey, op['store'])
+                model.setdefault(mkey, _store_value(op['store']))
             else:
                 must_run = op['ctl'] == 'force' or not present
                 if must_run:
